@@ -138,7 +138,16 @@ pub fn gen_log(rng: &mut Rng, maxmsgs: usize, sorted: bool) -> (Vec<u8>, Vec<i64
         if rng.chance(1, 8) { d.push(b'\r'); }
         d.push(b'\n');
         if rng.chance(1, 3) {
-            for _ in 0..(1 + rng.below(3)) { d.extend(rng.pick(CONT).as_bytes()); d.push(b'\n'); }
+            for _ in 0..(1 + rng.below(3)) {
+                if rng.chance(1, 4) {
+                    // a long continuation line (longer than a small block), digit-free
+                    d.extend(b"  long ");
+                    for _ in 0..(60 + rng.below(160)) { d.push(b'a' + rng.below(26) as u8); }
+                } else {
+                    d.extend(rng.pick(CONT).as_bytes());
+                }
+                d.push(b'\n');
+            }
         }
     }
     if rng.chance(1, 3) { d.pop(); }
